@@ -368,3 +368,25 @@ func (o *BiasOracle) Choose(p *Proc, id string, n uint) uint {
 	}
 	return uint(o.R.Intn(int(n)))
 }
+
+// PhasedOracle alternates calm and stormy phases: the bias of the identifiers in Storm is Lo during calm
+// phases and Hi during stormy ones (phases are counted in choices consulted), everything else is Inner's.
+type PhasedOracle struct {
+	Inner    *BiasOracle
+	Storm    []string
+	Lo, Hi   float64
+	PhaseLen int
+	calls    int
+}
+
+func (o *PhasedOracle) Choose(p *Proc, id string, n uint) uint {
+	o.calls++
+	v := o.Lo
+	if (o.calls/o.PhaseLen)%2 == 1 {
+		v = o.Hi
+	}
+	for _, k := range o.Storm {
+		o.Inner.Bias[k] = v
+	}
+	return o.Inner.Choose(p, id, n)
+}
